@@ -543,8 +543,8 @@ fn gen_e2e(out: &mut impl std::io::Write, seed: u64, n: u64, big: bool, which: &
     // bytes waiting before the connect is noticed (always run, before the scenarios)
     for t in ['T', 'F'] {
         if which.contains(t) {
-            for sizes in [vec![5usize, 70000, 1], vec![65535, 65536, 3], vec![1]] {
-                let (c, i, o, tg) = run_early_bytes(t, &sizes);
+            for (k, sizes) in [vec![5usize, 70000, 1], vec![65535, 65536, 3], vec![1], vec![1000], vec![7, 70001]].iter().enumerate() {
+                let (c, i, o, tg) = run_early_bytes(t, sizes, [0u8, 0, 0, 1, 2][k]);
                 emit(out, &c, &i, &o, &tg);
             }
         }
@@ -586,18 +586,99 @@ fn gen_e2e(out: &mut impl std::io::Write, seed: u64, n: u64, big: bool, which: &
 /// bytes that are already waiting when the processor sees the event that completes the connect: a raw
 /// acceptor writes right after `accept()`, before the connecting side has polled at all (processor
 /// pumped by hand); everything must be delivered by the events of that first pump, then silence
-fn run_early_bytes(t: char, sizes: &[usize]) -> (String, String, String, String) {
-    use message_io::network;
+/// the listening side: a keepalive-configured listener, a raw peer connects and writes at once; only then
+/// the processor is polled for the first time
+fn run_early_bytes_listener(t: char, sizes: &[usize]) -> (String, String, String, String) {
+    use message_io::adapters::{framed_tcp::FramedTcpListenConfig, tcp::{TcpKeepalive, TcpListenConfig}};
+    use message_io::network::{self, TransportListen};
     let msgs: Vec<Vec<u8>> = sizes.iter().enumerate().map(|(i, s)| make_msg(i, *s)).collect();
     let toks: Vec<String> = msgs.iter().map(|m| chunk_to_text(m)).collect();
     let case = format!("stream e2e {} - {}", t, toks.join(" "));
-    let tags = format!("{}raw>node,a2c,early-bytes,burst3,boundary", t);
+    let tags = format!("{}raw>node,c2a,early-bytes,configured,burst3,boundary", t);
+    let (ctl, mut proc_) = network::split();
+    let ka = TcpKeepalive::new().with_time(Duration::from_secs(30));
+    let addr: std::net::SocketAddr = "127.0.0.1:0".parse().unwrap();
+    let (_lid, laddr) = if t == 'T' {
+        ctl.listen_with(TransportListen::Tcp(TcpListenConfig::default().with_keepalive(ka)), addr).unwrap()
+    }
+    else {
+        ctl.listen_with(TransportListen::FramedTcp(FramedTcpListenConfig::default().with_keepalive(ka)), addr).unwrap()
+    };
+    let mut s = match TcpStream::connect(laddr) {
+        Ok(s) => s,
+        Err(_) => return (case, "setup".into(), "FAIL setup".into(), tags),
+    };
+    s.set_nodelay(true).ok();
+    let mut wire: Vec<u8> = vec![];
+    for m in &msgs {
+        if t == 'F' {
+            wire.extend_from_slice(&varint(m.len() as u64));
+        }
+        wire.extend_from_slice(m);
+    }
+    let writer = std::thread::spawn(move || {
+        let _ = s.write_all(&wire);
+        s
+    });
+    std::thread::sleep(Duration::from_millis(40));
+    let mut events: Vec<String> = vec![];
+    let mut got: Vec<Vec<u8>> = vec![];
+    let total: usize = msgs.iter().map(|m| m.len()).sum();
+    let deadline = Instant::now() + DELIVERY_TIMEOUT;
+    loop {
+        proc_.process_poll_events_until_timeout(Duration::from_millis(50), |ev| match ev {
+            NetEvent::Accepted(..) => events.push("A".into()),
+            NetEvent::Message(_, d) => {
+                events.push("M".into());
+                got.push(d.to_vec());
+            }
+            NetEvent::Disconnected(_) => events.push("D".into()),
+            _ => events.push("?".into()),
+        });
+        let have: usize = got.iter().map(|m| m.len()).sum();
+        let done = if t == 'T' { have >= total } else { got.len() >= msgs.len() };
+        if done || Instant::now() > deadline {
+            break
+        }
+    }
+    let _peer = writer.join();
+    let accepted_first = events.first().map(|e| e == "A").unwrap_or(false);
+    let (imp, ok) = if t == 'T' {
+        let all: Vec<u8> = got.concat();
+        let bounds = got.iter().all(|c| !c.is_empty() && c.len() <= message_io::adapters::tcp::INPUT_BUFFER_SIZE);
+        (format!("{} bounds={}", show_payload(&all), bounds), all == msgs.concat() && bounds)
+    }
+    else {
+        (show_outs(&got), got == msgs)
+    };
+    let ok = ok && accepted_first && !events.iter().any(|e| e == "D" || e == "?");
+    (case, imp, if ok { "ok".into() } else { format!("FAIL early bytes (listener): events {:?}", events.iter().take(12).collect::<Vec<_>>()) }, tags)
+}
+
+/// `variant`: 0 = default connect; 1 = connect_with a keepalive configuration; 2 = the node is the
+/// *listener* (keepalive configured) and a raw peer connects and writes before the first poll
+fn run_early_bytes(t: char, sizes: &[usize], variant: u8) -> (String, String, String, String) {
+    use message_io::adapters::{framed_tcp::{FramedTcpConnectConfig, FramedTcpListenConfig}, tcp::{TcpConnectConfig, TcpKeepalive, TcpListenConfig}};
+    use message_io::network::{self, TransportConnect, TransportListen};
+    if variant == 2 {
+        return run_early_bytes_listener(t, sizes)
+    }
+    let msgs: Vec<Vec<u8>> = sizes.iter().enumerate().map(|(i, s)| make_msg(i, *s)).collect();
+    let toks: Vec<String> = msgs.iter().map(|m| chunk_to_text(m)).collect();
+    let case = format!("stream e2e {} - {}", t, toks.join(" "));
+    let tags = format!("{}raw>node,a2c,early-bytes{},burst3,boundary", t, if variant == 1 { ",configured" } else { "" });
     let l = match std::net::TcpListener::bind("127.0.0.1:0") {
         Ok(l) => l,
         Err(_) => return (case, "setup".into(), "FAIL setup".into(), tags),
     };
     let (ctl, mut proc_) = network::split();
-    let (ep, _) = ctl.connect(transport(t), l.local_addr().unwrap()).unwrap();
+    let ka = TcpKeepalive::new().with_time(Duration::from_secs(30));
+    let (ep, _) = match (variant, t) {
+        (1, 'T') => ctl.connect_with(TransportConnect::Tcp(TcpConnectConfig::default().with_keepalive(ka)), l.local_addr().unwrap()).unwrap(),
+        (1, _) => ctl.connect_with(TransportConnect::FramedTcp(FramedTcpConnectConfig::default().with_keepalive(ka)), l.local_addr().unwrap()).unwrap(),
+        _ => ctl.connect(transport(t), l.local_addr().unwrap()).unwrap(),
+    };
+    let _ = (TransportListen::Ws, TcpListenConfig::default(), FramedTcpListenConfig::default());
     let (mut s, _) = l.accept().unwrap();
     s.set_nodelay(true).ok();
     let mut wire: Vec<u8> = vec![];
